@@ -39,6 +39,46 @@ CHECKS = {
    note="Trusted: ref/theory (line-of-fifths arithmetic, independent of op/scale.go), yaml.v3, Go runtime.",
    technique="exhaustive explicit enumeration of all 42 key states x 3 observation paths on the real code vs. reference model",
    ref="DESIGN.md §4 C13"),
+ "C03": dict(
+   text="Complete enumeration of the space the property quantifies over: 28 keys x 21 roots x (no bass + 21 basses) = 12 936 single chords through `text conv syllable`, in-process (28 converter-scale states x 462 operations) and through the real binary (accepted chords batched per key and byte-compared, refused ones one per run with the failure shape checked); number = letter distance, size = pitch distance mod 12, scale notes mandatory with the scale's own degree.",
+   note="Trusted: ref/theory. Unbounded verdict: the space is finite and enumerated completely.",
+   technique="exhaustive enumeration of the finite input space on the real code vs. reference model",
+   ref="DESIGN.md §4 C03"),
+ "C05": dict(
+   text="All progressions up to length 2 over 97 abstract chords (and 3..4 over a 10-element sub-alphabet) in each of the 28 keys rendered as degree text and as note-name text must convert to the same bytes; every placement of {key=..} on a 4-element progression x 6^3 key triples plus the complete 28 x 28 converter-scale change graph (every edge replayed); 6 documents under all 28 x 28 pairs of --key values differ by the tonic distance only.",
+   note="Metamorphic oracles; ref/theory for spelling and tonic distance. Bounded by progression length and alphabets; the scale-change graph is complete.",
+   technique="bounded-exhaustive enumeration with metamorphic oracles + complete state graph of the converter scale",
+   ref="DESIGN.md §4 C05"),
+ "C10": dict(
+   text="Complete value spaces of every scalar field (356 intervals as degree and base, 28 keys, 52^2 fractions and meters incl. 32/64-bit boundaries, bpm 1..2000, dynamics, all strings <= 3 over a 21-character YAML-hostile alphabet as metadata values and keys) printed the way text conv does and re-read the way write does and generically; 769 chord texts through text conv | write compared with ref/play's meaning of the text; all documents <= 2 over 8 shapes through write conv | write vs write.",
+   note="Trusted: yaml.v3 as generic reader. One open known finding (metadata key <<). Strings starting with a line break are excluded (yaml.v3 itself does not round-trip them).",
+   technique="exhaustive enumeration of value spaces through the real print/parse pair + bounded-exhaustive pipeline histories vs. reference model",
+   ref="DESIGN.md §4 C10"),
+ "C11": dict(
+   text="Deviation-bounded choice-tree search over spelling variants of every accepted token sequence of chords.y up to 9/12 tokens in both notations: every inter-token gap (8 trivia choices), leading whitespace inside braces, optional `_`, leading zeros, ASCII vs Unicode accidentals; <= 2/3 deviations (full product for short sentences in thorough); text conv must print the same bytes and give the same verdict as for the canonical spelling, in-process and (1 deviation) through the binary.",
+   note="Metamorphic; the documented tokeniser decides which variants are spellings of the same tokens.",
+   technique="deviation-bounded stateless search over spelling choices with a metamorphic oracle",
+   ref="DESIGN.md §4 C11"),
+ "C14": dict(
+   text="Explicit-state: the 28 key states x 4 conversions (every spelling of every circle member is a start state), every edge checked against pitch-class arithmetic, closed under the conversions (fixpoint); all 152 880 chains up to length 6 from all 28 keys in-process, all chains up to length 3/4 and closure chains of length 12/24/48 through `crd info key conv`; laws asserted directly.",
+   note="Trusted: ref/theory. Result sets compared as sets.",
+   technique="explicit-state exploration of the 28-key graph to fixpoint + bounded-exhaustive chain enumeration vs. reference model",
+   ref="DESIGN.md §4 C14"),
+ "C15": dict(
+   text="Numbers 1..64 (and to 200) x 7 qualities: existence, size, notation, print/parse; all 55 986 notation strings of length <= 6 over {b,#,0,1,2,9}; `info attr describe` for 21 roots x 67 attributes x both preferences (complete) and `info chord describe` for roots x 46 look-ups x 2 through the real binary, checked with the spelling equation.",
+   note="Trusted: ref/theory size formula.",
+   technique="exhaustive enumeration of interval and notation spaces on the real code vs. reference model",
+   ref="DESIGN.md §4 C15"),
+ "C16": dict(
+   text="Built-ins complete (46 look-ups played and compared with the conventional table, name = display, 67 attribute names, generated = embedded = listed); all user dictionaries with n <= 2 (3 reduced in thorough) chords over the option product name {fresh, unnamed} x extends {none, built-in by name/display, every user chord incl. itself, dangling} x attributes {none, built-in, user, dangling} x attribute file {absent, fresh, unnamed} x file order, in-process and (every cycle + a regular sample) through the real binary.",
+   note="Trusted: ref/dict. Overriding entries excluded (the statement does not fix which definition wins).",
+   technique="exhaustive small-scope enumeration of dictionaries on the real loader vs. reference loader",
+   ref="DESIGN.md §4 C16"),
+ "C17": dict(
+   text="Complete: 28 keys x 14 chords printed by `info key describe`, checked as notation and fed through `text conv syllable --key K | write --key K` (batched and one by one) with the real binary; sounded interval pattern above each root and scale membership of every pitch class.",
+   note="Trusted: ref/theory patterns. Unbounded: the space is finite.",
+   technique="exhaustive enumeration of the finite space through the whole pipeline vs. reference model",
+   ref="DESIGN.md §4 C17"),
 }
 NOT_YET = "check not built yet in this session (work in progress; see DESIGN.md §9 order of work)"
 
